@@ -82,8 +82,26 @@ type ServerOpts struct {
 // ErrHarness marks harness-side trouble (not a property verdict).
 var ErrHarness = errors.New("harness")
 
-// StartServer starts a gldap server on a kernel-chosen port.
+// StartServer starts a gldap server on a kernel-chosen port. When the kernel
+// has no free ephemeral port left (tens of thousands of connections of earlier
+// cases in TIME_WAIT during long runs) it waits and retries for up to a minute.
 func StartServer(mux *gldap.Mux, o ServerOpts) (*Server, error) {
+	var lastErr error
+	for attempt := 0; attempt < 300; attempt++ {
+		s, err := startServerOnce(mux, o)
+		if err == nil {
+			return s, nil
+		}
+		lastErr = err
+		if !strings.Contains(err.Error(), "address already in use") && !strings.Contains(err.Error(), "cannot assign requested address") {
+			return nil, err
+		}
+		time.Sleep(200 * time.Millisecond)
+	}
+	return nil, lastErr
+}
+
+func startServerOnce(mux *gldap.Mux, o ServerOpts) (*Server, error) {
 	buf := &SafeBuf{}
 	lvl := o.LogLevel
 	if lvl == hclog.NoLevel {
